@@ -392,6 +392,55 @@ func Ops() []Op {
 	add("SetJustificationBits", all, func(w *World, st common.BeaconState) error { return st.SetJustificationBits(common.JustificationBits{0b0101}) }, func(w *World, m reflect.Value) {
 		fld(m, "JustificationBits").Set(reflect.ValueOf([]bool{true, false, true, false}))
 	})
+	// the epoch-rotation helper used by justification processing, through the state: shift by one, bit 3 drops out
+	for _, start := range []uint8{0b1111, 0b1000, 0b0101} {
+		start := start
+		add(fmt.Sprintf("JustificationBits(%04b).NextEpoch", start), all, func(w *World, st common.BeaconState) error {
+			if err := st.SetJustificationBits(common.JustificationBits{start}); err != nil {
+				return err
+			}
+			jb, err := st.JustificationBits()
+			if err != nil {
+				return err
+			}
+			jb.NextEpoch()
+			return st.SetJustificationBits(jb)
+		}, func(w *World, m reflect.Value) {
+			nb := (start << 1) & 0x0f
+			fld(m, "JustificationBits").Set(reflect.ValueOf([]bool{nb&1 != 0, nb&2 != 0, nb&4 != 0, nb&8 != 0}))
+		})
+	}
+	// a checkpoint that keeps the stored EPOCH and changes only the root (a sibling branch; the genesis checkpoint)
+	for _, which := range []string{"PreviousJustifiedCheckpoint", "CurrentJustifiedCheckpoint", "FinalizedCheckpoint"} {
+		which := which
+		add("Set"+which+"(same epoch, other root)", all, func(w *World, st common.BeaconState) error {
+			var cur common.Checkpoint
+			var err error
+			switch which {
+			case "PreviousJustifiedCheckpoint":
+				cur, err = st.PreviousJustifiedCheckpoint()
+			case "CurrentJustifiedCheckpoint":
+				cur, err = st.CurrentJustifiedCheckpoint()
+			default:
+				cur, err = st.FinalizedCheckpoint()
+			}
+			if err != nil {
+				return err
+			}
+			cur.Root = root(0xa7)
+			switch which {
+			case "PreviousJustifiedCheckpoint":
+				return st.SetPreviousJustifiedCheckpoint(cur)
+			case "CurrentJustifiedCheckpoint":
+				return st.SetCurrentJustifiedCheckpoint(cur)
+			}
+			return st.SetFinalizedCheckpoint(cur)
+		}, func(w *World, m reflect.Value) {
+			c := fld(m, which).Interface().(refspec.Checkpoint)
+			c.Root = refspec.Root(root(0xa7))
+			fld(m, which).Set(reflect.ValueOf(c))
+		})
+	}
 	c1, c1m := cp(S+12, 0x9e)
 	c2, c2m := cp(S+13, 0x9f)
 	c3, c3m := cp(S+14, 0xa0)
